@@ -21,11 +21,20 @@
     iff *no* stable model of the program has the same extents of the non-private predicates - the
     wording of the property. Rests on the uniqueness of the private extents without private
     recursion (`private_extents_unique`).
-  Not proved: specifications (formulas instead of a program), placeholders, proof outlines.
+  * `external_refutes_specification`: the same for a task that compares a *specification*
+    (annotated formulas with any role/direction annotation the task accepts) with a program: some
+    emitted problem is refuted iff the interpretation satisfies the user-guide assumptions, the
+    specification's universal assumptions and the program's private definitions and either
+    (forward) satisfies the specification's forward premises without being a stable model of the
+    program, or (backward) is a stable model of the program and falsifies a universal/backward
+    `spec` formula. (A backward-annotated *assumption* of the specification is dropped by the
+    code - visible in the statement.)
+  Not proved: placeholders, proof outlines.
 -/
 import AnthemModel.Model.External
 import AnthemModel.Props.C19
 import AnthemModel.Proofs.ExternalSem
+import AnthemModel.Proofs.ExternalSemSpec
 import AnthemModel.Proofs.PrivateUnique
 namespace Anthem.C02
 open Asp
@@ -54,6 +63,38 @@ theorem external_refutes_programs (t : ExternalTask) (PL : Program) (hspec : t.s
               (∀ a ∈ leftSide t ΓL, a.role = .assumption → sat J a.formula ρ) ∧
               ¬ Stable PL t.userGuide.inputs (restrictTo (ext PL.preds t.userGuide.inputs) J.pred) J.fc)))) :=
   Anthem.external_refutes_programs t PL hspec hph hpo hbyp fuel ps h
+
+/-- **C02, specification against program** (no placeholders, no proof outline, tightness not
+    bypassed; every direction, decomposition, simplify and eq-break setting; every role/direction
+    annotation of the specification that the task accepts). -/
+theorem external_refutes_specification (t : ExternalTask) (S : Specification) (hspec : t.specification = .inr S)
+    (hph : t.userGuide.placeholders = []) (hpo : t.proofOutline = []) (hbyp : t.bypassTightness = false)
+    (fuel : Nat) (ps : List Problem) (h : externalProblems t fuel = .ok ps) :
+    ∃ ΓR, theoryTranslate t [] fuel t.program = .ok ΓR ∧
+      (NoSymbolConflictSpec t S ΓR → ∀ (J : Interp) (ρ : Asg),
+        ((∃ P ∈ ps, Refutes J ρ P) ↔
+          (∀ a ∈ t.userGuide.formulas, a.role = .assumption → sat J a.formula ρ) ∧
+          (∀ a ∈ S, lStable a = true → sat J a.formula ρ) ∧
+          (∀ a ∈ rightSide t ΓR, a.role = .assumption → sat J a.formula ρ) ∧
+          (((t.direction = .universal ∨ t.direction = .forward) ∧
+              (∀ a ∈ S, lFwdPrem a = true → sat J a.formula ρ) ∧
+              ¬ Stable t.program t.userGuide.inputs
+                (restrictTo (ext t.program.preds t.userGuide.inputs)
+                  (renamedInterp (t.specPrivate.filter (· ∈ t.progPrivate)) J.pred)) J.fc) ∨
+           ((t.direction = .universal ∨ t.direction = .backward) ∧
+              Stable t.program t.userGuide.inputs
+                (restrictTo (ext t.program.preds t.userGuide.inputs)
+                  (renamedInterp (t.specPrivate.filter (· ∈ t.progPrivate)) J.pred)) J.fc ∧
+              ∃ a ∈ S, lBwdConc a = true ∧ ¬ sat J a.formula ρ)))) :=
+  Anthem.external_refutes_spec t S hspec hph hpo hbyp fuel ps h
+
+/-- which annotated formulas of a specification play which part (read off `assemble`) -/
+theorem specification_roles (a : SAnn) :
+    (lStable a = true ↔ a.role = .assumption ∧ a.direction = .universal) ∧
+    (lFwdPrem a = true ↔ (a.role = .assumption ∧ a.direction = .forward) ∨
+      (a.role = .spec ∧ (a.direction = .universal ∨ a.direction = .forward))) ∧
+    (lBwdConc a = true ↔ a.role = .spec ∧ (a.direction = .universal ∨ a.direction = .backward)) := by
+  simp [lStable, lFwdPrem, lBwdConc]
 
 /-- **"…whose public part the other side cannot produce."** The last clause of
     `external_refutes_programs` for the program side, simplification off: given the private
@@ -172,6 +213,32 @@ example : ∀ ΓL ΓR, theoryTranslate exampleTask [] 8 [⟨.basic ⟨"p", [.var
   injection hL with hL; injection hR with hR
   subst hL; subst hR
   unfold NoSymbolConflictExt
+  decide
+
+/-- Non-vacuity of `external_refutes_specification`: the specification
+    `assumption: forall X (q(X) -> X > 0). spec(forward): forall X (p(X) -> q(X)). spec: forall X (q(X) -> p(X)).`
+    against `p(X) :- q(X).` (input `q/1`, output `p/1`) is accepted and yields two problems (one per direction); `rename_conflicting_symbols` leaves the assembled problems unchanged. -/
+def exampleSpecTask : ExternalTask :=
+  { specification := .inr [
+      ⟨.assumption, .universal, "", .quant .all [⟨"X", .general⟩] (.bin .imp (.atomic (.atom ⟨"q", [.var "X"]⟩))
+        (.atomic (.cmp (.var "X") [⟨.gt, .int (.num 0)⟩])))⟩,
+      ⟨.spec, .forward, "", .quant .all [⟨"X", .general⟩] (.bin .imp (.atomic (.atom ⟨"p", [.var "X"]⟩)) (.atomic (.atom ⟨"q", [.var "X"]⟩)))⟩,
+      ⟨.spec, .universal, "", .quant .all [⟨"X", .general⟩] (.bin .imp (.atomic (.atom ⟨"q", [.var "X"]⟩)) (.atomic (.atom ⟨"p", [.var "X"]⟩)))⟩]
+    program := [⟨.basic ⟨"p", [.var "X"]⟩, [.lit ⟨.pos, ⟨"q", [.var "X"]⟩⟩]⟩]
+    userGuide := [.input ⟨"q", 1⟩, .output ⟨"p", 1⟩]
+    proofOutline := []
+    decomposition := .sequential, direction := .universal, rep := .tauStar
+    bypassTightness := false, simplify := false, breakEq := false }
+
+example : (match externalProblems exampleSpecTask 8 with | .ok ps => ps.length | _ => 0) = 2 := by decide
+
+example : ∀ ΓR, theoryTranslate exampleSpecTask [] 8 exampleSpecTask.program = .ok ΓR →
+    NoSymbolConflictSpec exampleSpecTask
+      (match exampleSpecTask.specification with | .inr S => S | .inl _ => []) ΓR := by
+  intro ΓR hR
+  injection hR with hR
+  subst hR
+  unfold NoSymbolConflictSpec
   decide
 
 end Anthem.C02
